@@ -1359,8 +1359,8 @@ func specTable(ft *FirewallTable, p firewall.Packet, incoming bool, c *cert.Cach
 // own networks. A refusal returns no addresses.
 
 //@ func (*LightHouse).GetRemoteAllowList
-//@   trusted atomic load of the configured allow list (built by NewRemoteAllowListFromConfig: every list has its table)
-//@   ensures specRemoteAllowOK(result)
+//@   trusted atomic load of the configured allow list (built by NewRemoteAllowListFromConfig: every list has its table); a function of the lighthouse's current configuration
+//@   ensures specRemoteAllowOK(result) && result == lh.remoteAllowList.Load()
 //@   assigns nothing
 //@ func github.com/slackhq/nebula/cert.(Certificate).Name
 //@   trusted accessor of an immutable certificate
@@ -1503,6 +1503,56 @@ func specRelayByIdx(rs *RelayState, idx uint32) *Relay { return nil }
 //@   old idx0 = rxc.h.RemoteIndex
 //@   callrequires (*Interface).SendVia specRelayByIdx(&hostinfo.relayState, idx0) != nil && specRelayByIdx(&hostinfo.relayState, idx0).Type == ForwardingType && arg1 == specRelayVia(f.hostMap, hostinfo.vpnAddrs, specRelayByIdx(&hostinfo.relayState, idx0).PeerAddr) && arg2 == specRelayFor(f.hostMap, hostinfo.vpnAddrs, specRelayByIdx(&hostinfo.relayState, idx0).PeerAddr) && arg2.State == Established && arg2.Type == ForwardingType
 //@   ensures[once] forwarded <= 1
+
+// =====================================================================
+// C36 — unusable underlay addresses are never used (the admission filters)
+// =====================================================================
+//
+// The filters every learned underlay address passes before it is recorded or
+// roamed to: shouldAdd / unlockedShouldAddV4 / unlockedShouldAddV6 admit an
+// address only if the remote allow list allows it (for all of the peer's
+// overlay addresses, or for the one given) and it does not lie inside the
+// node's own overlay networks; handleHostRoaming moves a tunnel's remote to a
+// packet's source address only for a direct packet from a different address
+// that the remote allow list allows for all of the peer's overlay addresses.
+
+//@ func (*HostInfo).SetRemote
+//@   trusted stores the new remote address and teaches it to the remote list
+//@   effect roamed
+//@   assigns i.remote
+//@ func protoV4AddrPortToNetAddrPort
+//@   inline
+//@ func protoV6AddrPortToNetAddrPort
+//@   inline
+
+//@ func (*LightHouse).shouldAdd
+//@   props C36
+//@   ghost j int
+//@   requires lh != nil && lh.l != nil && lh.myVpnNetworksTable != nil
+//@   ensures[allowed]  implies(result, specAllow(lh.remoteAllowList.Load().AllowList, to) && !liteContains(lh.myVpnNetworksTable, to))
+//@   ensures[each]     implies(result && 0 <= j && j < len(vpnAddrs), specAllow(specInsideList(lh.remoteAllowList.Load(), vpnAddrs[j]), to))
+//@   ensures[inside]   implies(liteContains(lh.myVpnNetworksTable, to), !result)
+
+//@ func (*LightHouse).unlockedShouldAddV4
+//@   props C36
+//@   requires lh != nil && lh.l != nil && lh.myVpnNetworksTable != nil && to != nil
+//@   ensures result == (specAllow(specInsideList(lh.remoteAllowList.Load(), vpnAddr), protoV4AddrPortToNetAddrPort(to).Addr()) && specAllow(lh.remoteAllowList.Load().AllowList, protoV4AddrPortToNetAddrPort(to).Addr()) && !liteContains(lh.myVpnNetworksTable, protoV4AddrPortToNetAddrPort(to).Addr()))
+
+//@ func (*LightHouse).unlockedShouldAddV6
+//@   props C36
+//@   requires lh != nil && lh.l != nil && lh.myVpnNetworksTable != nil && to != nil
+//@   ensures result == (specAllow(specInsideList(lh.remoteAllowList.Load(), vpnAddr), protoV6AddrPortToNetAddrPort(to).Addr()) && specAllow(lh.remoteAllowList.Load().AllowList, protoV6AddrPortToNetAddrPort(to).Addr()) && !liteContains(lh.myVpnNetworksTable, protoV6AddrPortToNetAddrPort(to).Addr()))
+
+//@ func (*Interface).handleHostRoaming impl
+//@   props C36
+//@   ghost j int
+//@   ghost roamed int = 0
+//@   ghost allowed int = 0
+//@   requires f != nil && hostinfo != nil && f.l != nil && f.lightHouse != nil && len(hostinfo.vpnAddrs) >= 1
+//@   callrequires AllowAll same(arg1, hostinfo.vpnAddrs) && arg2 == via.UdpAddr.Addr()
+//@   callrequires SetRemote arg1 == via.UdpAddr && allowed == 1 && !via.IsRelayed
+//@   ensures[once]    roamed <= 1
+//@   ensures[relayed] implies(via.IsRelayed, roamed == 0)
 
 // =====================================================================
 // C38 — allow lists: longest prefix with a safe default (query side)
